@@ -174,6 +174,30 @@ func (c *c20Case) expected() []string {
 	return out
 }
 
+// longestLine: the largest number of bytes the editor has to hold before a submit.
+func longestLine(data []byte) int {
+	longest, cur := 0, 0
+	prevSemi := false
+	for _, b := range data {
+		cur++
+		if b == ';' {
+			prevSemi = true
+		} else if b == '\r' && prevSemi {
+			if cur > longest {
+				longest = cur
+			}
+			cur = 0
+			prevSemi = false
+		} else if b != ' ' {
+			prevSemi = false
+		}
+	}
+	if cur > longest {
+		longest = cur
+	}
+	return longest
+}
+
 func runC20(c *c20Case) (got []string, reads int, err error, panicMsg string) {
 	data, _ := c.stream()
 	tty := &simTTY{data: data, chunks: c.Chunks, eofAt: c.EOFAt}
@@ -238,6 +262,9 @@ func genC20(seed uint64, thorough bool) *c20Case {
 	if thorough {
 		n = r.Range(1, 14)
 	}
+	if r.Chance(0.01) {
+		n = r.Range(95, 130) // more statements than the history ring holds
+	}
 	words := []string{"SELECT", "*", "FROM", "t", "WHERE", "a", "=", "INSERT", "INTO", "VALUES", "(", ")", ",", "1", "22", "x1", "<=", "AND", "OR", "UPDATE", "SET", "DELETE", "USE", "db", "CREATE", "TABLE", "k", "INT", "name"}
 	special := r.Chance(0.6)
 	lit := func() string {
@@ -249,6 +276,9 @@ func genC20(seed uint64, thorough bool) *c20Case {
 		var sb strings.Builder
 		sb.WriteString(q)
 		m := r.Range(0, 12)
+		if r.Chance(0.04) {
+			m = r.Range(70, 330) // longer than the terminal width / the 256-byte input buffer
+		}
 		for i := 0; i < m; i++ {
 			switch r.Intn(9) {
 			case 0:
@@ -264,7 +294,7 @@ func genC20(seed uint64, thorough bool) *c20Case {
 					sb.WriteString(other)
 				}
 			case 3:
-				sb.WriteString([]string{"é", "漢", "ü", "–"}[r.Intn(4)])
+				sb.WriteString([]string{"é", "漢", "ü", "–", "😀", "𝄞"}[r.Intn(6)])
 			case 4:
 				if special && r.Chance(0.3) {
 					sb.WriteString("; ")
@@ -281,7 +311,21 @@ func genC20(seed uint64, thorough bool) *c20Case {
 	multi := r.Chance(0.5) // several statements per line possible
 	for i := 0; i < n; i++ {
 		nt := r.Range(1, 10)
+		if r.Chance(0.03) {
+			nt = r.Range(30, 70) // a statement over many lines / a line longer than 256 bytes
+		}
 		var toks, seps []string
+		if i > 0 && r.Chance(0.06) {
+			// the same statement typed again
+			c.Stmts = append(c.Stmts, append([]string(nil), c.Stmts[i-1]...))
+			c.Sep = append(c.Sep, append([]string(nil), c.Sep[i-1]...))
+			if i == n-1 {
+				c.After = append(c.After, "\r")
+			} else {
+				c.After = append(c.After, "\r")
+			}
+			continue
+		}
 		for j := 0; j < nt; j++ {
 			if r.Chance(0.3) {
 				toks = append(toks, lit())
@@ -432,6 +476,12 @@ func TestVerifC20(t *testing.T) {
 		seed := base + i
 		res.Seeds[1] = seed
 		c := genC20(seed, thorough)
+		if d, _ := c.stream(); longestLine(d) > 3500 {
+			// the line editor holds at most 4096 runes per entry (a documented
+			// limit of the terminal code, not part of the property): stay below it
+			res.Stats["skipped_line_over_3500"]++
+			continue
+		}
 		res.Evals++
 		data, _ := c.stream()
 		want := c.expected()
